@@ -1,19 +1,40 @@
 PROPERTY = "C13"
-ENCODED = ["linux::maps_reader::MappingInfo::aggregate", "maps_reader::{sanitize_path,is_mapping_a_path}", "MappingInfo::{is_empty_page,end_address,is_executable,name_is_path}"]
-BOUNDS = {"lines": "2 lines (3 in the thorough tier)", "names": "quick tier: anonymous and pseudo-named lines ([heap], [vdso]); file-named lines (/a, '/a (deleted)', /b) only in the thorough tier, where every instance so far ran out of memory",
-          "numbers": "first start k<<12 (16<=k<2^34), each line 1..8 pages, gap before each line 0..2 pages, all 5 permission bits, offset and vDSO address fully symbolic"}
-OUTSIDE = ["the merge rules that need a FILE mapping (reserved gap after / inside an executable file mapping, ' (deleted)' suffix): every harness instance with a path name exceeded 19-25 GB within 9 minutes, so these rules are NOT decided (the seeded C13 change lives there and is missed)", "more than 3 lines", "text parsing of /proc/<pid>/maps (procfs-core)", "pseudo-names built with format! ([stack:N], /SYSVxxxx, [other])", "32-bit address conversion failures"]
+ENCODED = ["linux::maps_reader::MappingInfo::aggregate", "maps_reader::sanitize_path", "maps_reader::is_mapping_a_path (own equivalence harnesses)", "MappingInfo::{is_empty_page,end_address,is_executable,name_is_path}"]
+BOUNDS = {"lines": "1-2 lines (3 in the thorough tier)",
+          "names": "concrete per instance: anonymous, [heap], [vdso], /a, '/a (deleted)', /b; quick tier: file-named pairs with a concrete adjacency pattern (adjacent / one page apart), symbolic gaps in the thorough tier",
+          "numbers": "first start k<<12 (16<=k<2^34), each line 1..8 pages, gap before each line 0..2 pages (or concrete 0/1), all 5 permission bits, offset and vDSO address fully symbolic",
+          "is_mapping_a_path": "equivalence with the byte-loop reference for EVERY byte string of length 0,1,2,6,13,15 (16 and 24 in the thorough tier)"}
+OUTSIDE = ["more than 2 lines in the quick tier (3-line fold rule 'file, anonymous page, same file' is thorough only)", "text parsing of /proc/<pid>/maps (procfs-core)", "names longer than 15 bytes in the quick tier",
+           "TStack/Vsys/Other pseudo-names (they go through format!, which is stubbed)"]
 ASSUMPTIONS = ["input lines ascending and non-overlapping (a well-formed memory map)", "std::hash::RandomState::new stubbed (getrandom FFI); no map is hashed into",
+               "std::fmt::format stubbed (CBMC does not fold the niche-encoded MMapPath discriminant, so the format! arms of the name match are explored although no harness line takes them)",
+               "inside aggregate, is_mapping_a_path is replaced by a byte-loop 'contains a slash' reference (std's memchr on the merged name pointer exhausts memory); the real function is proved equal to the reference in c13_is_path_eq_*",
                "MemoryMaps built by transmuting Vec<MemoryMap> (the struct is #[non_exhaustive])"]
-L = {"RawIterRange": 2, "drop_elements": 2, "simd_bitmask": 2, "memchr": 16, "memcmp": 16, "compare_bytes": 16}
-def A(n, d, tier="quick", t=1800): return H("c13_aggregate::" + n, loops=L, desc=d, tier=tier, timeout=t, est_gb=12, mem_gb=24)
+L = {"RawIterRange": 2, "drop_elements": 2, "simd_bitmask": 2, "memchr": 16, "memcmp": 16, "compare_bytes": 16, "naive_is_path": 16, "is_mapping_a_path": 16}
+def A(n, d, tier="quick", t=1800, **kw): return H("c13_aggregate::" + n, loops=L, desc=d, tier=tier, timeout=t, est_gb=14, mem_gb=30, **kw)
+NM = ("a merge happened",)
+NN = ("no merge happened",)
+LE = {"memchr": 34, "naive_is_path": 34, "is_mapping_a_path": 34}
+def E(n, tier="quick"): return H("c13_aggregate::c13_is_path_eq_len%d" % n, loops=LE, desc="is_mapping_a_path == byte-loop reference, every string of %d bytes" % n, tier=tier, timeout=900, est_gb=4)
 HARNESSES = [
-    H("c13_aggregate::c13_2_anon_anon", loops=L, desc="two anonymous lines (never merged)", timeout=1800, expect_unsat_covers=("a merge happened",)),
-    A("c13_2_heap_heap", "two [heap] lines: same-name merge iff contiguous"),
-    H("c13_aggregate::c13_2_heap_anon", loops=L, desc="[heap] then anonymous (never merged: the reserved-gap rule needs a file mapping)", timeout=1800, est_gb=12, mem_gb=24, expect_unsat_covers=("a merge happened",)),
-    H("c13_aggregate::c13_2_anon_vdso_gate", loops=L, desc="anonymous + [vdso] with a symbolic gate address (renaming; never merged)", timeout=1800, est_gb=12, mem_gb=24, expect_unsat_covers=("a merge happened",)),
+    A("c13_2_anon_anon", "two anonymous lines (never merged)", expect_unsat_covers=NM),
+    A("c13_2_heap_anon", "[heap] then anonymous (never merged: the reserved-gap rule needs a file mapping)", expect_unsat_covers=NM),
+    A("c13_2_anon_vdso_gate", "anonymous + [vdso] with a symbolic gate address (renaming; never merged)", expect_unsat_covers=NM),
+    # file-named lines (feasible since is_mapping_a_path is replaced by its byte-loop reference, DESIGN 0.9)
+    A("c13_1_file", "one file-named line", expect_unsat_covers=NM),
+    A("c13_1_deleted", "one '/a (deleted)' line: suffix removed", expect_unsat_covers=NM),
+    A("c13_2_same_adjacent", "same file, adjacent: merged", expect_unsat_covers=NN),
+    A("c13_2_same_apart", "same file, one page apart: not merged", expect_unsat_covers=NM),
+    A("c13_2_diff_adjacent", "different files, adjacent: merged only by the reserved-gap rule"),
+    A("c13_2_file_anon_adjacent", "file + anonymous, adjacent (reserved-gap rule after an executable file mapping)"),
+    E(1), E(2), E(6), E(13), E(15), E(16, "thorough"), E(24, "thorough"),
+    H("c13_aggregate::c13_is_path_eq_len0", desc="empty name / no name are not paths", expect_unsat_covers=()),
+    A("c13_2_same", "same file twice, symbolic gap", "thorough", 3000), A("c13_2_deleted_same", "'/a (deleted)' then /a, symbolic gap", "thorough", 3000),
+    A("c13_2_diff", "two files, symbolic gap", "thorough", 3000), A("c13_2_file_anon", "file + anonymous, symbolic gap", "thorough", 3000),
+    A("c13_2_file_anon_gate", "file + anonymous with a symbolic gate address", "thorough", 3000),
+    A("c13_3_fold_adjacent", "file, anonymous, file: adjacent (fold rule)", "thorough", 3000, expect_unsat_covers=NN),
+    A("c13_3_fold", "file, anonymous, file: symbolic gaps", "thorough", 3600),
+    A("c13_3_fold_other", "file, anonymous, other file", "thorough", 3600),
+    A("c13_2_heap_heap", "two [heap] lines, symbolic gap: same-name merge iff contiguous (~500 s)", "thorough"),
     A("c13_3_heap_heap_heap", "three [heap] lines", "thorough"), A("c13_3_anon_heap_anon", "anonymous, [heap], anonymous", "thorough"),
-    # file-named lines: every instance so far ran out of memory (19-25 GB within 9 min); kept for the thorough tier
-    A("c13_2_same_adjacent", "same file, adjacent", "thorough", 3000), A("c13_2_diff_adjacent", "different files, adjacent", "thorough", 3000),
-    A("c13_2_file_anon_adjacent", "file + anonymous, adjacent (reserved-gap rule)", "thorough", 3000), A("c13_3_fold_adjacent", "file, anonymous, file: adjacent (fold rule)", "thorough", 3000),
 ]
